@@ -12,6 +12,8 @@ import (
 //
 // history input   (variant (step ...))
 //   variant 0 StrMap[int] New()   1 StrMap[string] New()   2 Str2Str NewStr2Str()   3 Str2Str{} zero value
+//           4 StrMap[c07rec] New()  (struct values; a value is shown as the integer it was built from,
+//             -1 if its fields are no longer consistent with one another)
 //   step = (kind (key ...) (value ...) (probe ...))
 //     kind 0 LoadFromSlice   1 LoadFromMap (keys distinct, lengths equal)   2 no load, probes only
 // history output  (stepout ...), stepout = (err len (probe-result ...) items nslots maxchain)
@@ -21,6 +23,14 @@ import (
 //   nslots, maxchain through verif hooks (-1 when the inner map is nil)
 //
 // sweep input (9 lo count)   output (calcHashtableSlots(lo) ... calcHashtableSlots(lo+count-1)), -1 = panic
+//
+// big input   (8 variant n seed shape n2): large key sets are checked HERE, against a Go map, and only
+//   a summary goes to the model side (the list-encoded model is quadratic):
+//   n distinct keys generated from seed/shape, loaded (seed odd: LoadFromMap), every key probed, as
+//   many absent strings (mutations, prefixes, extensions, random) probed, Len and the Item
+//   enumeration compared with the map; then the same instance is reloaded with n2 other keys and
+//   checked again (the keys of the first load must be gone).
+//   output (nmismatch len1 slots1 len2 slots2 maxchain)
 
 type c07inst interface {
 	load(kind int, kk []string, vv []V) (err int)
@@ -75,6 +85,8 @@ func (c *c07int) get(k string) (out V) {
 		v, ok := c.m.Get(k)
 		if ok {
 			out = Ls(I(1), I(v))
+		} else if v != 0 {
+			out = Ls(I(0), I(-1)) // absent must come with the zero value
 		} else {
 			out = Ls(I(0), I(0))
 		}
@@ -140,6 +152,8 @@ func (c *c07str) get(k string) (out V) {
 		v, ok := c.m.Get(k)
 		if ok {
 			out = Ls(I(1), Str(v))
+		} else if v != "" {
+			out = Ls(I(0), I(-1)) // absent must come with the zero value
 		} else {
 			out = Ls(I(0), I(0))
 		}
@@ -174,6 +188,90 @@ func (c *c07str) items() (out V) {
 }
 func (c *c07str) hooks() (int, int) { return c.m.VerifSlotCount(), c.m.VerifMaxChain() }
 
+// ---- StrMap[struct] ----
+type c07rec struct {
+	A int64
+	B [3]byte
+	C uint16
+	D bool
+}
+
+func c07mkrec(z int) c07rec {
+	return c07rec{A: int64(z), B: [3]byte{byte(z), byte(z >> 8), byte(z>>16) ^ 0x5a}, C: uint16(z>>3) ^ 0xa5a5, D: z&1 == 1}
+}
+func c07recVal(r c07rec) V {
+	if r != c07mkrec(int(r.A)) {
+		return I(-1)
+	}
+	return I64(r.A)
+}
+
+type c07recm struct{ m *strmap.StrMap[c07rec] }
+
+func (c *c07recm) load(kind int, kk []string, vv []V) (code int) {
+	vals := make([]c07rec, len(vv))
+	for i, v := range vv {
+		vals[i] = c07mkrec(AsInt(v))
+	}
+	if c07guard(func() {
+		if kind == 1 {
+			mp := make(map[string]c07rec, len(kk))
+			for i, k := range kk {
+				mp[k] = vals[i]
+			}
+			code = c07ErrCode(c.m.LoadFromMap(mp))
+		} else {
+			code = c07ErrCode(c.m.LoadFromSlice(kk, vals))
+		}
+	}) {
+		return 2
+	}
+	return code
+}
+func (c *c07recm) get(k string) (out V) {
+	if c07guard(func() {
+		v, ok := c.m.Get(k)
+		if ok {
+			out = Ls(I(1), c07recVal(v))
+		} else if v != (c07rec{}) {
+			out = Ls(I(0), I(-1)) // absent must come with the zero value
+		} else {
+			out = Ls(I(0), I(0))
+		}
+	}) {
+		return Ls(I(2), I(0))
+	}
+	return out
+}
+func (c *c07recm) length() (n int) {
+	if c07guard(func() { n = c.m.Len() }) {
+		return -2
+	}
+	return n
+}
+func (c *c07recm) items() (out V) {
+	type kv struct {
+		k string
+		v c07rec
+	}
+	var all []kv
+	if c07guard(func() {
+		for i := 0; i < c.m.Len(); i++ {
+			k, v := c.m.Item(i)
+			all = append(all, kv{string(append([]byte(nil), k...)), v})
+		}
+	}) {
+		return I(-2)
+	}
+	sort.Slice(all, func(i, j int) bool { return all[i].k < all[j].k })
+	l := make([]V, len(all))
+	for i, e := range all {
+		l[i] = Ls(Str(e.k), c07recVal(e.v))
+	}
+	return VL(l)
+}
+func (c *c07recm) hooks() (int, int) { return c.m.VerifSlotCount(), c.m.VerifMaxChain() }
+
 // ---- Str2Str ----
 type c07s2s struct{ m *strmap.Str2Str }
 
@@ -202,6 +300,8 @@ func (c *c07s2s) get(k string) (out V) {
 		v, ok := c.m.Get(k)
 		if ok {
 			out = Ls(I(1), Str(v))
+		} else if v != "" {
+			out = Ls(I(0), I(-1)) // absent must come with the zero value
 		} else {
 			out = Ls(I(0), I(0))
 		}
@@ -227,6 +327,9 @@ func (c *c07s2s) hooks() (int, int) {
 
 func c07run(in V) V {
 	a := AsList(in)
+	if AsInt(a[0]) == 8 {
+		return c07big(AsInt(a[1]), AsInt(a[2]), AsI64(a[3]), AsInt(a[4]), AsInt(a[5]))
+	}
 	if AsInt(a[0]) == 9 {
 		lo, cnt := AsInt(a[1]), AsInt(a[2])
 		out := make([]V, cnt)
@@ -243,6 +346,8 @@ func c07run(in V) V {
 		inst = &c07str{strmap.New[string]()}
 	case 2:
 		inst = &c07s2s{strmap.NewStr2Str()}
+	case 4:
+		inst = &c07recm{strmap.New[c07rec]()}
 	default:
 		inst = &c07s2s{&strmap.Str2Str{}}
 	}
@@ -270,6 +375,243 @@ func c07run(in V) V {
 		outs = append(outs, Ls(I(code), I(n), VL(pr), its, I(ns), I(mc)))
 	}
 	return VL(outs)
+}
+
+
+// ---------------- large key sets, checked in Go against a Go map ----------------
+
+// c07bigKeys returns exactly n distinct keys (deterministic in r).
+func c07bigKeys(r *rand.Rand, shape, n int, avoid map[string]bool) []string {
+	seen := make(map[string]bool, n)
+	out := make([]string, 0, n)
+	pre := c07randBytes(r, 1+r.Intn(40))
+	base := []byte(c07randBytes(r, 48))
+	for i := 0; len(out) < n; i++ {
+		var k string
+		switch shape {
+		case 0: // random binary, lengths 0..24
+			k = c07randBytes(r, r.Intn(25))
+		case 1: // shared prefix, short tails
+			k = pre + c07randBytes(r, r.Intn(5))
+		case 2: // shared suffix
+			k = c07randBytes(r, r.Intn(5)) + pre
+		case 3: // decimal / identifier-like
+			k = fmt.Sprintf("%s%d", pre[:1], i)
+		case 4: // near-duplicates: one base, two bytes changed, same length
+			b := append([]byte(nil), base...)
+			b[r.Intn(len(b))] = byte(r.Intn(256))
+			b[r.Intn(len(b))] ^= 1 << uint(r.Intn(8))
+			k = string(b)
+		case 5: // all lengths: runs of one byte then a short tail (many keys are prefixes of others)
+			k = string(make([]byte, i%300)) + c07randBytes(r, r.Intn(3))
+		default: // fixed length 20 random (the shape the repository tests use)
+			k = c07randBytes(r, 20)
+		}
+		if !seen[k] && !avoid[k] {
+			seen[k] = true
+			out = append(out, k)
+		}
+	}
+	return out
+}
+
+func c07big(variant, n int, seed int64, shape, n2 int) V {
+	r := rand.New(rand.NewSource(seed))
+	mism := 0
+	var len1, slots1, len2, slots2, maxchain int
+	type inst struct {
+		load  func(kk []string, asMap bool) bool // values are derived from the position
+		get   func(k string) (int, bool)          // position of the value, found
+		size  func() int
+		item  func(i int) (string, int)
+		hooks func() (int, int)
+	}
+	val := func(i int) string { return fmt.Sprintf("v%d/%x", i, i*2654435761) }
+	var in inst
+	switch variant {
+	case 0:
+		m := strmap.New[int]()
+		in = inst{
+			load: func(kk []string, asMap bool) bool {
+				vv := make([]int, len(kk))
+				for i := range vv {
+					vv[i] = i
+				}
+				if asMap {
+					mp := make(map[string]int, len(kk))
+					for i, k := range kk {
+						mp[k] = i
+					}
+					return m.LoadFromMap(mp) == nil
+				}
+				return m.LoadFromSlice(kk, vv) == nil
+			},
+			get:   func(k string) (int, bool) { return m.Get(k) },
+			size:  m.Len,
+			item:  func(i int) (string, int) { return m.Item(i) },
+			hooks: func() (int, int) { return m.VerifSlotCount(), m.VerifMaxChain() },
+		}
+	case 1:
+		m := strmap.New[string]()
+		var cur []string
+		in = inst{
+			load: func(kk []string, asMap bool) bool {
+				vv := make([]string, len(kk))
+				for i := range vv {
+					vv[i] = val(i)
+				}
+				cur = vv
+				if asMap {
+					mp := make(map[string]string, len(kk))
+					for i, k := range kk {
+						mp[k] = vv[i]
+					}
+					return m.LoadFromMap(mp) == nil
+				}
+				return m.LoadFromSlice(kk, vv) == nil
+			},
+			get: func(k string) (int, bool) {
+				v, ok := m.Get(k)
+				if !ok {
+					if v != "" {
+						return -2, false
+					}
+					return 0, false
+				}
+				var i int
+				if _, err := fmt.Sscanf(v, "v%d/", &i); err != nil || i < 0 || i >= len(cur) || cur[i] != v {
+					return -1, true
+				}
+				return i, true
+			},
+			size: m.Len,
+			item: func(i int) (string, int) {
+				k, v := m.Item(i)
+				var j int
+				if _, err := fmt.Sscanf(v, "v%d/", &j); err != nil || j < 0 || j >= len(cur) || cur[j] != v {
+					return k, -1
+				}
+				return k, j
+			},
+			hooks: func() (int, int) { return m.VerifSlotCount(), m.VerifMaxChain() },
+		}
+	default:
+		m := strmap.NewStr2Str()
+		var cur []string
+		in = inst{
+			load: func(kk []string, asMap bool) bool {
+				vv := make([]string, len(kk))
+				for i := range vv {
+					vv[i] = val(i)
+				}
+				cur = vv
+				if asMap {
+					mp := make(map[string]string, len(kk))
+					for i, k := range kk {
+						mp[k] = vv[i]
+					}
+					return m.LoadFromMap(mp) == nil
+				}
+				return m.LoadFromSlice(kk, vv) == nil
+			},
+			get: func(k string) (int, bool) {
+				v, ok := m.Get(k)
+				if !ok {
+					if v != "" {
+						return -2, false
+					}
+					return 0, false
+				}
+				var i int
+				if _, err := fmt.Sscanf(v, "v%d/", &i); err != nil || i < 0 || i >= len(cur) || cur[i] != v {
+					return -1, true
+				}
+				return i, true
+			},
+			size:  m.Len,
+			item:  nil,
+			hooks: func() (int, int) { in := m.VerifStrMap(); return in.VerifSlotCount(), in.VerifMaxChain() },
+		}
+	}
+	round := func(kk, gone []string, asMap bool) {
+		ref := make(map[string]int, len(kk))
+		for i, k := range kk {
+			ref[k] = i
+		}
+		if !in.load(kk, asMap) {
+			mism++
+		}
+		probe := func(s string) {
+			v, ok := in.get(s)
+			w, wok := ref[s]
+			if ok != wok || (ok && v != w) || (!ok && v != 0) {
+				mism++
+			}
+		}
+		for _, k := range kk {
+			probe(k)
+		}
+		for _, k := range gone {
+			probe(k)
+		}
+		probe("")
+		for i := 0; i < len(kk); i++ {
+			k := kk[r.Intn(len(kk))]
+			switch r.Intn(5) {
+			case 0:
+				if len(k) > 0 {
+					b := []byte(k)
+					b[r.Intn(len(b))] ^= 1 << uint(r.Intn(8))
+					probe(string(b))
+				}
+			case 1:
+				if len(k) > 0 {
+					probe(k[:len(k)-1])
+					probe(k[1:])
+				}
+			case 2:
+				probe(k + string([]byte{byte(r.Intn(256))}))
+			case 3:
+				probe(k + "\x00")
+			default:
+				probe(c07randBytes(r, r.Intn(25)))
+			}
+		}
+		if in.item != nil {
+			seen := make(map[string]bool, len(kk))
+			for i := 0; i < in.size(); i++ {
+				k, v := in.item(i)
+				w, ok := ref[k]
+				if !ok || v != w || seen[k] {
+					mism++
+				}
+				seen[k] = true
+			}
+			if len(seen) != len(ref) {
+				mism++
+			}
+		}
+	}
+	if c07guard(func() {
+		kk := c07bigKeys(r, shape, n, nil)
+		round(kk, nil, seed&1 == 1)
+		len1 = in.size()
+		slots1, maxchain = in.hooks()
+		first := make(map[string]bool, len(kk))
+		for _, k := range kk {
+			first[k] = true
+		}
+		kk2 := c07bigKeys(r, (shape+1+r.Intn(3))%7, n2, first)
+		if n2 > 4 { // share some keys with the first load (new values)
+			copy(kk2[:n2/4], kk[:min(n2/4, len(kk))])
+		}
+		round(kk2, kk, seed&2 == 2)
+		len2 = in.size()
+		slots2, _ = in.hooks()
+	}) {
+		mism += 1000000
+	}
+	return Ls(I(mism), I(len1), I(slots1), I(len2), I(slots2), I(maxchain))
 }
 
 // ---------------- generators ----------------
@@ -382,7 +724,7 @@ func c07keys(r *rand.Rand, shape, n int) []string {
 func c07vals(r *rand.Rand, variant, n int) []V {
 	vv := make([]V, n)
 	for i := range vv {
-		if variant == 0 {
+		if variant == 0 || variant == 4 {
 			switch r.Intn(6) {
 			case 0:
 				vv[i] = I(0)
@@ -455,17 +797,17 @@ func c07strs(kk []string) V {
 
 func c07size(g *Gen) int {
 	r := g.R
-	switch x := r.Intn(100); {
-	case x < 12:
+	switch x := r.Intn(1000); {
+	case x < 120:
 		return r.Intn(3) // 0,1,2
-	case x < 72:
+	case x < 700:
 		return r.Intn(13)
-	case x < 95:
+	case x < 950:
 		return r.Intn(51)
-	case x < 99:
-		return 50 + r.Intn(g.Scale(100, 500))
+	case x < 992:
+		return 50 + r.Intn(g.Scale(100, 300))
 	default:
-		return 150 + r.Intn(g.Scale(250, 3000))
+		return 150 + r.Intn(g.Scale(250, 600))
 	}
 }
 
@@ -483,8 +825,8 @@ func c07history(g *Gen, variant, nsteps int, firstUnloaded bool, sizeOverride in
 		if sizeOverride >= 0 && s == 0 {
 			n = sizeOverride
 		}
-		if variant >= 2 && n > 400 {
-			n = 400 + n/20 // the model's packed store is costlier; keep Str2Str sets moderate
+		if (variant == 2 || variant == 3) && n > 300 {
+			n = 300 + n/20 // the model's packed store is costlier; keep Str2Str sets moderate
 		}
 		kk := c07keys(r, r.Intn(10), n)
 		vv := c07vals(r, variant, len(kk))
@@ -538,13 +880,13 @@ func init() {
 		Gen: func(g *Gen) {
 			r := g.R
 			// never-loaded and empty instances, every documented constructor
-			for variant := 0; variant <= 2; variant++ {
+			for _, variant := range []int{0, 1, 2, 4} {
 				g.Add("unloaded", c07history(g, variant, 0, true, -1))
 				g.Add("unloaded+loads", c07history(g, variant, 2, true, -1))
 				g.Add("empty", c07history(g, variant, 1, false, 0))
 			}
 			// bounded sweep over tiny sizes x shapes x variants (one load, full probing)
-			for variant := 0; variant <= 3; variant++ {
+			for variant := 0; variant <= 4; variant++ {
 				for n := 0; n <= 8; n++ {
 					for shape := 0; shape < 10; shape++ {
 						kk := c07keys(r, shape, n)
@@ -554,23 +896,34 @@ func init() {
 				}
 			}
 			// random histories
-			n := g.Scale(1200, 40000)
+			n := g.Scale(2500, 8000)
 			for i := 0; i < n; i++ {
-				variant := r.Intn(4)
+				variant := r.Intn(5)
 				nsteps := 1 + r.Intn(4)
 				g.Add(fmt.Sprintf("history/v%d", variant), c07history(g, variant, nsteps, variant != 3 && r.Intn(10) == 0, -1))
 			}
-			// large key sets (few)
-			big := []int{1000, 2000}
-			if g.Thor {
-				big = []int{1000, 2000, 5000, 10000, 20000}
-			}
-			for _, sz := range big {
-				for variant := 0; variant <= 1; variant++ {
-					g.Add("large", c07history(g, variant, 2, false, sz))
+			// large key sets: checked in Go against a Go map, summary line for the model side
+			bigs := []int{1000, 3000, 10000, 30000, 100000}
+			reps := g.Scale(2, 8)
+			for rep := 0; rep < reps; rep++ {
+				for _, sz := range bigs {
+					for variant := 0; variant <= 2; variant++ {
+						n1 := sz/2 + r.Intn(sz/2+1)
+						n2 := r.Intn(sz + sz/2)
+						if r.Intn(4) == 0 {
+							n2 = r.Intn(40)
+						}
+						g.Add("big", Ls(I(8), I(variant), I(n1), I64(r.Int63()), I(r.Intn(7)), I(n2)))
+					}
 				}
 			}
-			g.Add("large", c07history(g, 2, 2, false, 1000))
+			// sizes around the points where the slot count changes (floor(4n/3) crosses a power of two)
+			for k := 3; k <= g.Scale(15, 18); k++ {
+				c := (3 << uint(k)) / 4
+				for d := -1; d <= 1; d++ {
+					g.Add("big/edge", Ls(I(8), I(r.Intn(3)), I(c+d), I64(r.Int63()), I(r.Intn(7)), I(c-d)))
+				}
+			}
 			// calcHashtableSlots against the model's [slots]
 			top := g.Scale(100000, 1000000)
 			for lo := 0; lo <= top; lo += 1000 {
